@@ -184,8 +184,12 @@ def r11_2(ctx):
                 ctx.met('R11.2', m.qual, src(s)[:110], s, 'remove_dirichlet=False variant (used by assembly only)', nontrivial=False)
             else:
                 # semantic: the stored value subtracts (or .difference()s) the Dirichlet set of exactly this (lv, i)
-                mentions = [x for x in ast.walk(s.value) if isinstance(x, ast.Subscript) and src(x).replace(' ', '') == 'self.index_dirichlet[lv][i]']
-                other = [x for x in ast.walk(s.value) if isinstance(x, ast.Attribute) and x.attr == 'index_dirichlet']
+                # the stored value and the definitions of the locals it is built from (funcs = funcs - self.index_dirichlet[..])
+                used = {x.id for x in ast.walk(s.value) if isinstance(x, ast.Name)}
+                exprs = [s.value] + [d.value for d in own_nodes(m.node) if isinstance(d, ast.Assign) and d is not s
+                                     and any(isinstance(t, ast.Name) and t.id in used for t in d.targets)]
+                mentions = [x for e_ in exprs for x in ast.walk(e_) if isinstance(x, ast.Subscript) and src(x).replace(' ', '') == 'self.index_dirichlet[lv][i]']
+                other = [x for e_ in exprs for x in ast.walk(e_) if isinstance(x, ast.Attribute) and x.attr == 'index_dirichlet']
                 if rem:
                     ctx.met('R11.2', m.qual, src(s)[:110] + ' removes Dirichlet', s, 'no Dirichlet dof of (lv, i) enters a smoothing set')
                 elif not other:
